@@ -169,6 +169,7 @@ func minimise(s *Scenario, test func(*Scenario) bool, maxTests int, deadline tim
 			func(r *ReaderScn) { r.ExtraCalls = 1 },
 			func(r *ReaderScn) { r.Scribble = "" },
 			func(r *ReaderScn) { r.Rich = false },
+			func(r *ReaderScn) { r.Consumer = "" },
 			func(r *ReaderScn) { r.Terminal = "separate" },
 			func(r *ReaderScn) { r.Fault.WithData = false },
 			func(r *ReaderScn) {
